@@ -21,6 +21,15 @@ CHECKS: dict[str, dict[str, str]] = {
         "technique": "TLA+ group-law specification model-checked with TLC; TLC-generated case tables replayed into btclib; real-size events validated by TLC",
         "design_ref": "DESIGN.md section 4 C01",
     },
+    "C05": {
+        "text": ("TLC checks that the small grammars (CompactSize, var-bytes, witness, TxOut) are canonical over ALL byte strings on a boundary "
+                 "alphabet up to a length (WireModel) and the same strings are replayed into btclib's parsers; for every one of the ~55 classes "
+                 "with a parse/serialize pair (found by introspection) valid encodings and their structure-aware mutations are recorded with "
+                 "check_validity on and off and validated by TLC: grammar verdict, re-serialization, sizes/ids (ten transcribed grammars), the "
+                 "class-independent canonical round-trip law (all classes), JSON round trip, PSBT fixed point keeping every key-value pair."),
+        "technique": "TLA+ wire grammars (serializer + parser per class) model-checked with TLC; recorded parse/serialize events validated against them",
+        "design_ref": "DESIGN.md section 4 C05",
+    },
     "C09": {
         "text": ("TLC checks the commitment matrix of the three algorithms on the specification (SigHashModel: digest changes iff the BIPs "
                  "say the hash type commits to the field, 810 combinations); digests recorded from every public route -- sig_hash.legacy / "
